@@ -102,6 +102,15 @@ func extraCatalogue() []damage {
 			}
 			panic("no 64 KiB BlobHeader")
 		}},
+		{"frame:headersize-70k-real-after-a-large-block", false, true, func(fb *fileBlock) {
+			// the same kind of block, its BlobHeader 70 KiB long (over the limit), right behind a
+			// well-formed raw block of 96 KiB that holds no objects: whatever the reader keeps
+			// from the block before (a buffer that grew, a limit checked only when growing) must
+			// not let the oversized header through
+			big := pbfgen.EncodeFileBlock("OSMData", pbfgen.EncodeBlob(padTo((&pbfgen.Block{}).PrimitiveBlock(), 96*1024), pbfgen.BlobOpts{Raw: true}), pbfgen.FileBlockOpts{})
+			blob := pbfgen.EncodeBlob(fb.payload, fb.blob)
+			fb.whole = append(big, pbfgen.EncodeFileBlock(fb.typ, blob, pbfgen.FileBlockOpts{IndexData: make([]byte, 70*1024)})...)
+		}},
 		{"frame:datasize-minus1", true, true, dsize(-1)},
 		{"frame:datasize-minint32", true, true, dsize(-1 << 31)},
 		{"frame:datasize-maxint32", true, true, dsize(1<<31 - 1)},
